@@ -73,7 +73,7 @@ def rescale_bc(bc, mname, a, b, l):
     return d
 
 
-def rescale(spec, a, b, l):
+def rescale(spec, a, b, l, sa=1.0):
     mp = dict(spec.mparams)
     if spec.mname == "convection":
         mp["convcoef"] = mp["convcoef"] * b
@@ -82,7 +82,7 @@ def rescale(spec, a, b, l):
     sec = None
     if spec.section is not None:
         s0 = spec.section
-        sec = lambda x: s0(x / l)
+        sec = lambda x: sa * s0(x / l)          # sa: the units of the section area (only (dA/dx)/A enters the equations)
     ps = scales(spec.mname, a, b, l)[0]
     return gen.Spec(spec.mname, mp, spec.faces * l, spec.rname, spec.flux, rescale_bc(spec.bcL, spec.mname, a, b, l), rescale_bc(spec.bcR, spec.mname, a, b, l),
                     [p * s for p, s in zip(spec.prim, ps)], section=sec)
@@ -252,14 +252,17 @@ def units(ctx, rng, idx):
         a, b, l = (float(10 ** rng.uniform(-3, 3)) for _ in range(3))
     else:
         a, b, l = (2.0 ** int(rng.integers(-20, 21)) for _ in range(3))
-    tw = rescale(spec, a, b, l)
+    sa = 1.0
+    if spec.section is not None and rng.random() < 0.7:
+        sa = float(10 ** rng.uniform(-9, 9)) if general else 2.0 ** int(rng.integers(-30, 31))
+    tw = rescale(spec, a, b, l, sa)
     model, mesh, disc, f = spec.build()
     share = bool(rng.random() < 0.5)
     model2, mesh2, disc2, f2 = tw.build(num=disc.num if share else None, model=model if (share and spec.mname in ("euler1d", "burgers")) else None)
     ps, qs, rs, ts = scales(spec.mname, a, b, l)
     cfl = float(rng.uniform(0.1, 0.4) if not implicit else rng.uniform(0.2, 1.5))
     nstep = int(rng.integers(1, 9 if not implicit else 4))
-    ctx.describe(integrator=iname, cfl=cfl, nstep=nstep, scale_density=a, scale_velocity=b, scale_length=l, **spec.desc())
+    ctx.describe(integrator=iname, cfl=cfl, nstep=nstep, scale_density=a, scale_velocity=b, scale_length=l, scale_section_area=sa, **spec.desc())
     r1 = disc.rhs(f); r2 = [x / sc for x, sc in zip(disc2.rhs(f2), rs)]
     if not (_finite(r1) and _finite(r2)):
         raise core.Skip("nonfinite rhs")
